@@ -46,6 +46,8 @@ UnanimousPermits(cf, b, res) ==
      => res.reached /\ res.permit
 BlockDefeatsUnanimous(cf, b, res) == (cf.strategy = "unanimous" /\ B(b) # {}) => ~res.reached /\ ~res.permit
 CountsMatch(cf, b, res) == res.np = Cardinality(P(b)) /\ res.nb = Cardinality(B(b)) /\ res.na = Cardinality(A(b)) /\ res.total = Len(b)
+(* "reported as reached / PERMIT only if permit votes meet that strategy's stated criterion" (strategies with a crisp criterion) *)
+MeetsCriterion(cf, b, res) == (Specified(cf) /\ res.reached) => Reached(cf, b)
 ReachedIsPermit(cf, b, res) == res.reached <=> res.permit
 (* improving a ballot: a block becomes a permit, or a permit voter's weight / confidence is raised *)
 Better(b1, b2) == /\ Len(b1) = Len(b2)
